@@ -192,7 +192,7 @@ CHECKS = {
     ),
     "C20": dict(
         level="exploration",
-        text=("T = 2..32 real caller threads run operations from a 70-entry catalogue over one shared world (eagerly and lazily "
+        text=("T = 2..32 real caller threads run operations from an 84-entry catalogue over one shared world (eagerly and lazily "
               "built keys, shared key sets, default/custom registries, algorithm singletons); every thread switch is decided by "
               "a seeded scheduler at sys.settrace line/opcode events inside joserfc (sequential histories, single-pre-emption "
               "sweeps, PCT d<=3, random switching). Oracle: each call == its isolated execution, products verify at the "
